@@ -1,6 +1,7 @@
 package main
 
 import (
+	"github.com/polydawn/refmt"
 	"fmt"
 	"reflect"
 	"strings"
@@ -405,6 +406,26 @@ func genAutogen(tier string, seed uint64) {
 	}
 }
 
+// number of Write calls a successful marshal of the value makes (0 if it fails)
+func histWriteCalls(f string, aid int, t reflect.Type, vd string) int {
+	rv, err := buildValue(t, vd)
+	if err != nil {
+		return 0
+	}
+	src := reflect.New(t)
+	src.Elem().Set(rv)
+	h := &histState{format: f}
+	w := &histWriter{}
+	w.reset(-1)
+	e, pn := safely(func() error {
+		return refmt.NewMarshallerAtlased(h.eopts(), w, atlasByID(fmt.Sprint(aid)).atl).Marshal(src.Interface())
+	})
+	if e != nil || pn {
+		return 0
+	}
+	return w.calls
+}
+
 // histories on long-lived instances, and back-to-back framing
 func genHist(tier string, seed uint64) {
 	emitDefs()
@@ -429,7 +450,15 @@ func genHist(tier string, seed uint64) {
 			o := genOpts{depth: 1 + r.intn(3), jsonSafe: f == "json" && !r.chance(1, 10), roundtrip: true, tagged: aid == 2 || aid == 3, cbor: f == "cbor"}
 			switch r.intn(10) {
 			case 0, 1, 2, 3:
-				ops = append(ops, fmt.Sprintf("M|%d|%d|%s", aid, tid(t), genValue(r, t, o)))
+				vd := genValue(r, t, o)
+				if r.chance(1, 4) {
+					// the writer fails at one of the Write calls this marshal needs: the run is abandoned at that point
+					if n := histWriteCalls(f, aid, t, vd); n > 0 {
+						ops = append(ops, fmt.Sprintf("M|%d|%d|%s|%d", aid, tid(t), vd, r.intn(n)))
+						break
+					}
+				}
+				ops = append(ops, fmt.Sprintf("M|%d|%d|%s", aid, tid(t), vd))
 			case 4, 5:
 				ops = append(ops, fmt.Sprintf("C|%d|%d|%s", aid, tid(t), genValue(r, t, o)))
 			default:
